@@ -79,7 +79,7 @@ func Run(run *ev.Run) {
 		run.Inconclusive("cannot listen on loopback: " + err.Error())
 		return
 	}
-	hs := &http.Server{Handler: srv.Handler()}
+	hs := &http.Server{Handler: srv.Handler(), MaxHeaderBytes: 8 << 20}
 	go hs.Serve(ln)
 	defer hs.Close()
 	base, _ := url.Parse("http://" + ln.Addr().String())
@@ -217,14 +217,36 @@ func Run(run *ev.Run) {
 			paramValues = append(paramValues, b.String())
 		}
 	}
-	for _, c := range calls {
-		for _, pv := range paramValues {
-			q := ""
-			if pv != "" {
-				q = "p=" + refQueryEscape(pv)
+	// values the library's own escaper leaves (partly) literal, and sizes beyond a megabyte
+	paramValues = append(paramValues, "a;b", ";", "alpha;beta&x", "a+b@c$!*'", "(x:y)", strings.Repeat("m", 1200000))
+	hugeBody := []byte(`{"k":"` + strings.Repeat("v", 1500000) + `"}`)
+	type qcase struct {
+		pv, q string
+		bodies [][]byte
+	}
+	var qcases []qcase
+	for _, pv := range paramValues {
+		switch {
+		case pv == "":
+			qcases = append(qcases, qcase{pv, "", e2eBodies})
+		case pv == "x":
+			qcases = append(qcases, qcase{pv, "p=x", append(append([][]byte(nil), e2eBodies...), hugeBody)})
+		default:
+			qcases = append(qcases, qcase{pv, "p=" + refQueryEscape(pv), e2eBodies})
+			if lib := kit.QueryEscape(pv); lib != refQueryEscape(pv) {
+				// the query exactly as the library's writers produce it
+				qcases = append(qcases, qcase{pv, "p=" + lib, e2eBodies[:1]})
 			}
-			for bi, body := range e2eBodies {
+		}
+	}
+	for _, c := range calls {
+		for _, qc := range qcases {
+			pv, q := qc.pv, qc.q
+			for bi, body := range qc.bodies {
 				if !c.HasBody && bi > 0 {
+					continue
+				}
+				if len(pv) > 100000 && bi > 0 {
 					continue
 				}
 				// reference run: tunnelling off
@@ -240,7 +262,7 @@ func Run(run *ev.Run) {
 				}
 				var variants []variant
 				for _, T := range []int{1, fullLen - 1, fullLen, fullLen + 1, 100000} {
-					if T <= 0 {
+					if T <= 0 || (T != 1 && (len(pv) > 100000 || len(body) > 100000)) {
 						continue
 					}
 					variants = append(variants, variant{T, false})
@@ -320,7 +342,10 @@ func Run(run *ev.Run) {
 					}
 					run.Count("e2e_pairs", 1)
 					if tunnelled {
-						run.Distinct(fmt.Sprintf("%s|e2e|%s %s|%s|%d|%d|%v", g, c.HTTP, c.Restli, refQueryEscape(trunc(pv)), bi, T, vr.chunked))
+						run.Distinct(fmt.Sprintf("%s|e2e|%s %s|%s|%d|%d|%v", g, c.HTTP, c.Restli, trunc(q), bi, T, vr.chunked))
+						if len(pv) > 1000000 || len(body) > 1000000 {
+							run.Count("tunnelled_requests_over_1MiB", 1)
+						}
 						if vr.chunked {
 							run.Count("tunnelled_requests_chunked", 1)
 						}
